@@ -15,6 +15,6 @@ fam() {
 for d in "$ROOT"/C*/m*; do
   [ -f "$d/patch.diff" ] || continue
   id=$(basename $(dirname "$d"))
-  python3 /verif/tools/seed_trial.py "$d" --checks "$(fam $id)" >> "$OUT" 2>&1
+  python3 /verif/tools/seed_trial.py "$d" --checks "$(fam $id)" --wt "${WT:-/tmp/wt/confirm}" >> "$OUT" 2>&1
 done
 echo done >> "$OUT"
